@@ -309,9 +309,51 @@ for _n in ('append', 'extend', 'insert'):
     _transparent(list, _n)
 for _n in ('append', 'appendleft', 'extend', 'extendleft'):
     _transparent(collections.deque, _n)
-for _n in ('get', 'setdefault', 'pop', '__setitem__', '__getitem__', '__contains__'):
+for _n in ('setdefault', 'pop', '__setitem__'):
     _transparent(dict, _n, key_first=True)
 _transparent(dict, 'update')
+
+
+def sym_key_lookup(interp, d, key):
+    """Lookup of a symbolic string key in a concrete dict: forks on equality with each concrete key
+    of the same kind.  Returns (found, value)."""
+    from .text import fmt_to_sstr
+    if isinstance(key, FmtStr):
+        key = fmt_to_sstr(key)
+    if not isinstance(key, SStr):
+        raise Unsupported("dict lookup with symbolic key %r" % (key,))
+    for k in list(d.keys()):
+        if isinstance(k, Sym):
+            raise Unsupported("dict with symbolic keys")
+        if isinstance(k, key.pytype):
+            if interp.ctx.branch(key.t == key._lit(k)):
+                return True, d[k]
+    return False, None
+
+
+@_method(dict, 'get')
+def m_dict_get(interp, d, key, default=None):
+    if isinstance(key, (Sym, FmtStr)):
+        found, v = sym_key_lookup(interp, d, key)
+        return v if found else default
+    return d.get(key, default)
+
+
+@_method(dict, '__getitem__')
+def m_dict_getitem(interp, d, key):
+    if isinstance(key, (Sym, FmtStr)):
+        found, v = sym_key_lookup(interp, d, key)
+        if not found:
+            raise KeyError(key)
+        return v
+    return d[key]
+
+
+@_method(dict, '__contains__')
+def m_dict_contains(interp, d, key):
+    if isinstance(key, (Sym, FmtStr)):
+        return sym_key_lookup(interp, d, key)[0]
+    return key in d
 
 
 @_method(str, 'join')
